@@ -10,4 +10,17 @@ EXPLANATION = 'Kani default checks (dev-profile semantics) on every path of Rust
 def build(tier, seed):
     def q(md, pd, sid):
         return (md, pd, sid) in [(1, 0, 3), (2, 0, 0), (2, 1, 3), (1, 0, 0), (3, 2, 1), (2, 0, 4), (1, 1, 2)] or (md + pd + sid + seed) % 5 == 0
-    return [kernel_or_error('features_text', lambda: features_text.features_kernel(False, tier, q))]
+    ks = [kernel_or_error('features_text', lambda: features_text.features_kernel(False, tier, q))]
+    # the layout tracker on numbers no C compiler would produce (libclang error recovery can): absence of panics only
+    try:
+        from props import c02
+        lay = c02.build(tier, seed)[0]
+        if not lay.error:
+            lay.harnesses = [h for h in lay.harnesses if h.name == 'tracker_never_panics_on_arbitrary_layouts']
+            for h in lay.harnesses:
+                h.tier = 'quick'
+            lay.name = 'tracker_unconstrained'
+        ks.append(lay)
+    except Exception as e:
+        ks.append(Kernel(name='tracker_unconstrained', error='build-failed: %s' % e))
+    return ks
